@@ -279,10 +279,10 @@ def run(tier, v):
     pool = ThreadPoolExecutor(max_workers=3)
     # 1. design (runs while the drivers run: they mostly sleep in the code's own timers)
     vlib._specdir()
-    fut_design = pool.submit(lambda: vlib.tlc("Filter", cfg, workers=8 if quick else 12, timeout=3000, heap="6g"))
+    fut_design = pool.submit(lambda: vlib.tlc("Filter", cfg, workers=8 if quick else 12, timeout=3000, heap="2g" if quick else "3g"))
     time.sleep(1.0)   # vlib numbers its TLC runs without a lock
     fut_gen = pool.submit(lambda: vlib.tlc("FilterGen", "FilterGen_quick.cfg" if quick else "FilterGen_thorough.cfg",
-                                           workers=4, timeout=1800, heap="3g"))
+                                           workers=4, timeout=1800, heap="2g"))
 
     h = vlib.build_harness(["c05"])
     bins = vlib.build_cmds(("trzsz",))
@@ -324,13 +324,19 @@ def run(tier, v):
             seen_cls[cls] = seen_cls.get(cls, 0) + 1
             files.append(_write_events(r, "c05-exit-suspect-%d.ndjson" % len(files)))
     findings, st = validate_all(files, "c05tv")
+    diagnosed = {}
     for f in findings:
         payload = {"scenario": f["scenario"], "opts": f["opts"], "event": f["event"], "invariant": f["invariant"],
                    "run": f["run"][:400], "where": f["explain"]}
         res = _scenario_results(out, f)
         if res is not None:
             payload["steps_with_bytes"] = res
+        if len(diagnosed) < 6 and _key(f) not in diagnosed:
+            # diagnosis only: is the run at least a behaviour of the modelled code (Judge = FALSE)?
+            d = vlib.validate_trace(TV[0], "FilterTraceModel.cfg", _write_events(f["run"], "c05-diag-%d.ndjson" % len(diagnosed)))
+            diagnosed[_key(f)] = payload["model_of_the_code_explains_the_run"] = bool(d["accepted"])
         v.violation(_key(f), _text(f), payload)
+    cov["rejected_runs_explained_by_code_model"] = diagnosed
     cov["traces_validated_against_impl"] = s["scenarios"] + len(ex_samples)
     cov["filter_scenarios"] = s["scenarios"]
     cov["histories_real_sessions"] = s["histories"]
@@ -433,7 +439,7 @@ def run(tier, v):
     cov["model_constants"] = open(os.path.join(vlib.VERIF, "spec", cfg)).read()
     if not quick:
         # non-vacuity: every action of the model fires (safety part of the quick configuration)
-        c = vlib.tlc("Filter", "Filter_cov.cfg", timeout=1800, coverage=True, heap="6g")
+        c = vlib.tlc("Filter", "Filter_cov.cfg", timeout=1800, coverage=True, heap="2g")
         cov["action_counts"] = vlib.action_counts(c["out"])
         cov["actions_never_fired"] = [a for a, n in cov["action_counts"].items() if n[1] == 0]
     pool.shutdown()
